@@ -4,5 +4,5 @@ cd "$(dirname "$0")/engine-loom"
 export CARGO_NET_OFFLINE=true
 export CARGO_TARGET_DIR="$(cd .. && pwd)/.target-loom"
 export RUSTFLAGS="--cfg zip_rs_zip_verif --cfg zip_rs_zip_verif_loom"
-python3 gen_zipsrc.py
+python3 gen_zipsrc.py rewrite >/dev/null
 cargo build --release --offline
